@@ -364,3 +364,12 @@ Definition request_scenario (c : config) (timeout : Z) (stop_abs : option Z) (r 
 Definition sender_runs (c : config) (timeout : Z) (stop_abs : option Z) (rs : list request)
   : list (list step * verdict) :=
   map (fun r => run (request_scenario c timeout stop_abs r) (rq_script r)) rs.
+
+(* ---- what the persistent queue does with the error Send returned (queuebatch/persistent_queue.go onDone):
+   `if experr.IsShutdownErr(consumeErr) { return }` — the item is NOT marked as dispatched-and-finished, so it
+   is picked up again after a restart; any other outcome (nil or another error) deletes it. *)
+Definition pq_keeps (final : option err) : bool :=
+  match final with Some e => is_shutdown e | None => false end.
+
+Definition request_kept (sc : scenario) (script : list attempt) : bool :=
+  pq_keeps (final_err (verdict_of sc script) (last_err (steps_of sc script))).
